@@ -137,3 +137,118 @@ func ZZ_C06_TwoGroups() {
 		vx.Assert("reservation of each group never negative", ue.ReservedQuota[t.rg[i]] >= 0)
 	}
 }
+
+// C06 over histories: one subscriber and rating group from a fresh account
+// through up to N requests (reports with or without a FINAL trigger), every
+// request arbitrary within the compliance assumption (used <= last grant).
+// After every request the clauses of ZZ_C06_Step are asserted. A ghost
+// variable follows what the consumer has been told: the group is "closed"
+// after a final-unit indication or a FINAL report, and open again after a
+// settlement that refunded money. The recorded over-grant (known finding) is
+// confined to requests made while the group is open; a grant made while the
+// group is closed and nothing is held - whatever history led there - is a
+// violation. A history ends at the first over-grant: what follows it are
+// consequences of that violation, not new ones. Bounds: 3 requests (quick: 2
+// when neither of the first two is a FINAL report), balance < 2^20, volumes
+// < 4096, unit cost 1 or 2 (with cost 10 the chained products of three
+// requests were not decided within the limits; cost 10..9999 is covered by
+// the one-step harness from an arbitrary state).
+//
+//gosx:property=C06 tier=quick shards=8 unwind=40 timeout=30000 p.steps=3 p.plainsteps=2 p.plainsteps.thorough=3 maxseconds=900 maxseconds.thorough=3000
+func ZZ_C06_History() {
+	zzSetup()
+	rg := int32(1)
+	q := vx.Int64("balance")
+	vx.Assume(q >= 0)
+	vx.Assume(q < 1<<20)
+	cost := []int64{1, 2}[vx.Param("shard", 0)%2] // 2: units and money differ, products stay shifts
+	zzAccount(zzSupi, rg, q, cost)
+	ue, err := chf_context.GetSelf().NewCHFUe(zzSupi)
+	vx.Assert("subscriber context created", err == nil && ue != nil)
+	closed := false
+	lastGranted := int64(0)
+	steps := vx.Param("steps", 3)
+	if vx.Param("nshards", 1) == 8 && vx.Param("shard", 0) < 2 {
+		// histories whose first two requests carry no FINAL trigger are the
+		// expensive ones: the quick tier follows them for two requests only
+		steps = vx.Param("plainsteps", 2)
+	}
+	for i := 0; i < steps; i++ {
+		l := "s" + string(rune('0'+i))
+		requested := vx.Int32(l + ".requested")
+		used := vx.Int32(l + ".used")
+		vx.Assume(requested >= 0)
+		vx.Assume(used >= 0)
+		vx.Assume(int64(used) <= lastGranted)
+		vx.Assume(requested < 1<<12) // small volumes: the arithmetic of three chained requests stays decidable
+		u := models.ChfConvergedChargingMultipleUnitUsage{RatingGroup: rg, UPFID: "upf", RequestedUnit: &models.RequestedUnit{TotalVolume: requested}}
+		u.UsedUnitContainer = []models.ChfConvergedChargingUsedUnitContainer{{QuotaManagementIndicator: models.QuotaManagementIndicator_ONLINE_CHARGING, TotalVolume: used}}
+		req := models.ChfConvergedChargingChargingDataRequest{SubscriberIdentifier: zzSupi, MultipleUnitUsage: []models.ChfConvergedChargingMultipleUnitUsage{u}}
+		// the FINAL choice of the first two requests is fixed per shard
+		var final bool
+		if i < 2 && vx.Param("nshards", 1) == 8 {
+			final = vx.Param("shard", 0)>>uint(i+1)&1 == 1
+		} else {
+			final = vx.Choice(l+".final", 2) == 1
+		}
+		if final {
+			req.Triggers = []models.ChfConvergedChargingTrigger{{TriggerType: models.ChfConvergedChargingTriggerType_FINAL}}
+			closed = true
+		}
+		reserved := ue.ReservedQuota[rg]
+		before := zzBalance(zzSupi, rg)
+		mode := int64(1)
+		if closed {
+			mode = 2
+		}
+		vx.Tag("mode", mode)
+		vx.Tag("reserved", reserved)
+		vx.Tag("balance64", before)
+		vx.Tag("cost", cost)
+		vx.Tag("used64", int64(used))
+		vx.Tag("requested64", int64(requested))
+
+		info, _ := sessionChargingReservation(req)
+
+		after := zzBalance(zzSupi, rg)
+		res := ue.ReservedQuota[rg]
+		vx.Assert("(i) balance never negative", after >= 0)
+		vx.Assert("(i) reservation never negative", res >= 0)
+		vx.Assert("one unit information per credit-controlled usage entry", len(info) == 1)
+		if len(info) != 1 {
+			return
+		}
+		granted := int64(0)
+		if info[0].GrantedUnit != nil {
+			granted = int64(info[0].GrantedUnit.TotalVolume)
+		}
+		vx.Assert("grant is not negative and not more than requested", granted >= 0 && granted <= int64(requested))
+		vx.Assert("(ii) the grant is backed by money held: granted x cost <= reservation + balance", granted*cost <= res+after)
+		left := reserved - int64(used)*cost
+		if left < 0 {
+			left = 0
+		}
+		fui := info[0].FinalUnitIndication
+		told := fui != nil && fui.FinalUnitAction == models.FinalUnitAction_TERMINATE
+		if !final && int64(requested)*cost > before+left {
+			vx.Assert("(iii) final-unit indication when the money buys less than requested", told)
+		}
+		if granted*cost > res+after {
+			return // over-granted: the history ends here
+		}
+		// ghost: what the consumer knows about the group
+		if closed {
+			if int64(used)*cost < reserved {
+				closed = false // settled with a refund: quota management resumes
+			}
+		} else if told {
+			closed = true
+		}
+		lastGranted = granted
+	}
+}
+
+// History form of the recorded over-grant: money short while the group is open.
+func ZZ_C06_regionShortOfMoneyWhileOpen(mode, requested64, cost, balance64, reserved, used64 int64) bool {
+	return mode != 2 && requested64*cost > balance64+reserved-used64*cost
+}
